@@ -45,7 +45,12 @@ STABLE_FEATURES = ["bi", "str", "while", "for", "exit", "list", "arr", "rec", "u
 
 # ------------------------------------------------------------------------------------------------------------------
 def models(chk, tier):
-    r = vlib.tlc("Units", "Units", workers=4, timeout=300, coverage=True)
+    cfgs = ["SIntReduce8", "SIntReduce64"] + (["SIntReduce12", "SIntReduce16"] if tier != "quick" else [])
+    with concurrent.futures.ThreadPoolExecutor(max_workers=4) as ex:
+        fu = ex.submit(vlib.tlc, "Units", "Units", workers=2, timeout=300, coverage=True)
+        fr = [(cfg, ex.submit(vlib.tlc, "SIntReduce", cfg, workers=4, timeout=1200)) for cfg in cfgs]
+        r = fu.result()
+        rs = [(cfg, f.result()) for cfg, f in fr]
     chk.add_tlc("Units", r)
     if r.violated:
         chk.violation("Units.tla violates %s" % r.violated, r.trace_text, key={"model": "Units", "inv": r.violated})
@@ -62,9 +67,7 @@ def models(chk, tier):
     for act in ("Save", "Observe", "Split", "LinkRun"):
         if r.coverage.get(act, (0, 0))[0] == 0:
             raise vlib.MachineryError("Units.tla: action %s never taken" % act)
-    cfgs = ["SIntReduce8", "SIntReduce64"] + (["SIntReduce12", "SIntReduce16"] if tier != "quick" else [])
-    for cfg in cfgs:
-        rr = vlib.tlc("SIntReduce", cfg, workers=8, timeout=900)
+    for cfg, rr in rs:
         chk.add_tlc(cfg, rr)
         if rr.violated:
             chk.violation("SIntReduce.tla (%s): %s is violated -- the re-expression does not denote the constant" % (cfg, rr.violated),
@@ -111,7 +114,7 @@ def family(chk, n):
         for _ in range(2):
             g.function()
         p = g.program("u%d_%d" % (base, i))
-        progs.append(progen.add_extremes(p, base * 7 + i))
+        progs.append(progen.add_extremes(p, base * 7 + i, huge=(i % 2 == 0)))
     return progs
 
 
@@ -175,9 +178,11 @@ class Job(object):
 
     def perform_level(self, q):
         t = self.trees[q]
-        for p in self.paths:
-            if p["level"] == q:
-                t.final(p["chain"], p["final"])
+        mine = [p for p in self.paths if p["level"] == q]
+        for p in mine:
+            f = t.final(p["chain"], p["final"])
+            if not p["chain"] and not f["ok"]:
+                t.dead = "the direct compilation (%s) failed" % p["final"]       # direct paths come first in self.paths
         return q
 
     def perform_split(self, k):
@@ -191,7 +196,7 @@ class Job(object):
         open(os.path.join(d, "p.as"), "w").write(client_text)
         res = {"split": s, "dir": d, "lib_ok": False, "run": None, "lib_funs": [self.prog["funs"][i]["name"] for i in libf]}
 
-        def aldor(args, timeout=120):
+        def aldor(args, timeout=units.Tree.TIMEOUT):
             rc, o, e, to = vlib.aldor(self.b, args, d, timeout=timeout)
             return {"rc": rc, "out": o.decode(errors="replace"), "err": e.decode(errors="replace"), "timeout": to, "cmd": " ".join(args), "dir": d}
         r = aldor(["-" + s["qlib"], "-Fao", "plib.as"])
@@ -245,17 +250,19 @@ def run(chk, tier):
     b = vlib.vbuild()
     wd = vlib.scratch("c05")
     rnd = random.Random(chk.seed)
-    paths, splits = models(chk, tier)
+    quick = tier == "quick"
+    nprog = 11 if quick else 48
+    nsplit = 5 if quick else 42
+    ncorpus = 3 if quick else 16
+    units.Tree.TIMEOUT = 25 if quick else 90
+    progs = family(chk, nprog)
+    with concurrent.futures.ThreadPoolExecutor(max_workers=2) as ex:
+        fm_ = ex.submit(models, chk, tier)
+        fam = progcheck.Family(chk, progs, "gen", workers=vlib.NCPU, timeout=1500)
+        paths, splits = fm_.result()
     direct = [p for p in paths if not p["chain"]]
     indirect = [p for p in paths if p["chain"]]
-    quick = tier == "quick"
-    nprog = 19 if quick else 48
-    per_prog = 24 if quick else len(indirect)
-    nsplit = 6 if quick else 42
-    ncorpus = 4 if quick else 16
-
-    progs = family(chk, nprog)
-    fam = progcheck.Family(chk, progs, "gen", workers=vlib.NCPU, timeout=1500)
+    per_prog = 26 if quick else len(indirect)
     jobs = []
     for p in fam.replayable:
         jobs.append(Job(b, wd, p["id"], render.render(p), fam.exp[p["id"]], prog=p))
@@ -290,11 +297,14 @@ def run(chk, tier):
                     j.splits.append(sdeck[si % len(sdeck)])
                     si += 1
         need = set((p["level"], p["final"]) for p in chosen.values())
-        need |= set((s["qclient"], s["route"]) for s in j.splits)
+        need |= set((s["qclient"], s["route"]) for s in j.splits) | set((s["qlib"], s["route"]) for s in j.splits)
         need |= set((q, "fm") for q in set(p["level"] for p in chosen.values()))       # the source's constants
         j.paths = [p for p in direct if (p["level"], p["final"]) in need] + \
             sorted(chosen.values(), key=lambda p: (p["level"], p["chain"], p["final"]))
 
+    import time
+    tm = {"setup": round(time.time() - chk.t0, 1)}
+    t1 = time.time()
     # ---- perform ----
     with concurrent.futures.ThreadPoolExecutor(max_workers=vlib.NCPU) as ex:
         futs = [ex.submit(j.perform_level, q) for j in jobs for q in LEVELS]
@@ -304,6 +314,8 @@ def run(chk, tier):
         for j, k, f in sfuts:
             j.split_results.append(f.result())
 
+    tm["perform"] = round(time.time() - t1, 1)
+    t1 = time.time()
     # ---- read the generated texts; every re-expressed constant goes to TLC ----
     forms = {}
     exprs, consts = [], []
@@ -324,6 +336,8 @@ def run(chk, tier):
     predicted = set(json.dumps(t, sort_keys=True) for t in reduced.values() if t)
     seen_shapes = set(json.dumps(e, sort_keys=True) for e in exprs)
 
+    tm["read+reduce"] = round(time.time() - t1, 1)
+    t1 = time.time()
     # ---- a (program, level) whose *direct* compilation already fails or misbehaves is outside this property (C01/C02/C03) ----
     broken = {}
     for j in jobs:
@@ -337,7 +351,7 @@ def run(chk, tier):
                     broken.setdefault((j.pid, p["level"]), (p["final"],) + tuple(c or fault_sig(f["run"])))
     for j in jobs:
         j.paths = [p for p in j.paths if (j.pid, p["level"]) not in broken]
-        keep = [k for k, s in enumerate(j.splits) if (j.pid, s["qclient"]) not in broken]
+        keep = [k for k, s in enumerate(j.splits) if (j.pid, s["qclient"]) not in broken and (j.pid, s["qlib"]) not in broken]
         j.splits = [j.splits[k] for k in keep]
         j.split_results = [j.split_results[k] for k in keep]
     chk.extra["direct_failures"] = [{"program": k[0], "level": k[1], "final": v[0], "kind": v[1], "sig": v[2]} for k, v in sorted(broken.items())][:20]
@@ -400,6 +414,8 @@ def run(chk, tier):
             chk.case((j.pid, "split", json.dumps(s, sort_keys=True)), nontrivial=True)
     chk.traces += nperf
 
+    tm["digests"] = round(time.time() - t1, 1)
+    chk.extra["phase_s"] = tm
     trace = os.path.join(wd, "units.ndjson")
     vlib.write_ndjson(trace, events)
     hook = os.environ.get("VERIF_C05_CORRUPT")          # self-test: corrupt one recorded field (see SELFTEST_NOTES)
@@ -434,7 +450,9 @@ def run(chk, tier):
     chk.extra["splits_in_model"] = len(splits)
     chk.extra["distinct_paths_performed"] = len(set((p["level"], tuple(p["chain"]), p["final"]) for j in jobs for p in j.paths))
     chk.extra["distinct_splits_performed"] = len(set(json.dumps(s, sort_keys=True) for j in jobs for s in j.splits))
-    chk.extra["programs"] = {"generated": len([j for j in jobs if j.prog is not None]), "corpus": [j.pid for j in jobs if j.prog is None]}
+    chk.extra["programs"] = len(jobs)
+    chk.extra["programs_generated"] = len([j for j in jobs if j.prog is not None])
+    chk.extra["programs_corpus"] = [j.pid for j in jobs if j.prog is None]
     chk.extra["programs_by_status"] = fam.status_count
     chk.extra["compiler_commands"] = sum(t.ncmd for j in jobs for t in j.trees.values())
     chk.extra["trace_events"] = len(events)
